@@ -30,6 +30,7 @@ void common_config(Plan& p, Rng& r)
     static const int caches[] = {0, 0, 0, 8, 2};
     p.cfg.cache_pages = caches[r.below(5)];
     p.cfg.sector = r.chance(1, 3) ? 512 : 4096;
+    p.cfg.gf.nul_bytes = r.chance(1, 4);  // strings and names with an embedded NUL byte
 }
 
 Step track_step(Rng& r, int size)
